@@ -17,7 +17,7 @@ def run(prop, tier):
     acc = common.Acc()
     d = allocfail.scratch_dir()
     x = exe()
-    depth, ns = (2, 14) if tier == "quick" else (3, 15)
+    depth, ns = (2, 14) if tier == "quick" else (4, 16)
     jobs = [["seq", depth, k, ns] for k in range(ns)] + [["inject"]]
     common.parallel(lambda j: common.run_harness(x, j, acc, "resource_seq " + " ".join(map(str, j)), timeout=7000, crash_prop=prop, env={"VERIF_SCRATCH_DIR": d}), jobs)
     s = acc.stats
